@@ -166,5 +166,70 @@ theorem C19_conversions_no_crash (n : AV.NFA σ α) (hv : n.validate = .ok ()) (
     C19_eliminate_lambda_no_keyerror n hv]
   refine ⟨?_, ?_, ?_⟩ <;> intro e h <;> cases h
 
+/-! ## non-vacuity, and what the failure-tracking models do outside the hypotheses -/
+
+/-- Equality of results is decidable (for the `decide` examples). -/
+local instance decEqRes' {β : Type} [DecidableEq β] : DecidableEq (Res β) := fun a b =>
+  match a, b with
+  | .ok x, .ok y => if h : x = y then isTrue (by rw [h]) else isFalse (fun he => h (by cases he; rfl))
+  | .error x, .error y =>
+    if h : x = y then isTrue (by rw [h]) else isFalse (fun he => h (by cases he; rfl))
+  | .ok _, .error _ => isFalse (fun he => by cases he)
+  | .error _, .ok _ => isFalse (fun he => by cases he)
+
+/-- An accepted NFA with a lambda cycle `0 ⇄ 1`, a state without a row (`3`), an empty target set
+(row of `2`), and a row keyed by the non-state `7` (with a lambda edge and a symbol edge). -/
+def exCyc : AV.NFA Nat Nat :=
+  { states := [0, 1, 2, 3], syms := [0, 1],
+    trans := [(0, [(none, [1]), (some 0, [2])]), (1, [(none, [0]), (some 1, [1, 3])]),
+              (2, [(some 0, []), (some 1, [0])]), (7, [(some 0, [0]), (none, [2])])],
+    init := 0, finals := [3] }
+
+example : exCyc.validate = .ok () := by decide
+
+theorem exCyc_shape : exCyc.PyShape :=
+  ⟨by decide, by decide, by decide, by decide, by decide, by decide⟩
+
+/-- The failure-tracking runs on the example end with `.ok` (computed, not via the theorems). -/
+example : (match exCyc.toDFAE with | .ok m => m.states | .error _ => []) =
+    [[0, 1], [2], [0, 1, 3]] := by decide
+example : (match exCyc.toDFAE with | .ok m => (m.trans, m.finals, m.allowPartial) | .error _ => ([], [], false)) =
+    (exCyc.toDFA.trans, exCyc.toDFA.finals, exCyc.toDFA.allowPartial) := by decide
+example : (match exCyc.toDFAMinE with | .ok m => m.states.length | .error _ => 99) = 3 := by decide
+example : (match exCyc.eliminateLambdaE with | .ok m => (m.states, m.finals) | .error _ => ([], [])) =
+    (exCyc.eliminateLambda.states, exCyc.eliminateLambda.finals) := by decide
+/-- Reading the row keyed by the non-state `7` does not fail either. -/
+example : (match exCyc.subsetSuccE [7, 3, 9] with | .ok r => r | .error _ => []) = [(0, [0, 1])] := by
+  decide
+
+/-- The failure tracking is not vacuous: a target outside `states` (validation rejects it with
+`InvalidStateError`) makes `lambda_closures[end_state]` fail with `KeyError` in `from_nfa` and in
+`eliminate_lambda` (through the lambda enclosure of `0`), while the total models go on. -/
+def exBadTarget : AV.NFA Nat Nat :=
+  { states := [0, 1], syms := [0], trans := [(0, [(none, [1])]), (1, [(some 0, [5])])],
+    init := 0, finals := [1] }
+
+example : exBadTarget.validate = .error (.lib .invalidStateError) ∧
+    (match exBadTarget.toDFAE with | .error (.py .keyError) => true | _ => false) = true ∧
+    (match exBadTarget.eliminateLambdaE with | .error (.py .keyError) => true | _ => false) = true ∧
+    exBadTarget.toDFA.states.length = 2 := by decide
+
+/-- An initial state outside `states`: `_get_lambda_closures()[initial_state]` fails. -/
+def exBadInit : AV.NFA Nat Nat :=
+  { states := [0], syms := [0], trans := [(0, [(some 0, [0])])], init := 4, finals := [] }
+
+example : exBadInit.validate = .error (.lib .invalidStateError) ∧
+    (match exBadInit.toDFAE with | .error (.py .keyError) => true | _ => false) = true := by decide
+
+/-- `transitions[cur_state_name]` is a real obligation of the loop: started from a state whose
+row was never created, the first edge fails. -/
+example : (match expEdgeE (S := Nat) (α := Nat) (fun _ => false) 5
+      { trans := [(0, [])], states := [0], finals := [], queue := [] } (0, 0) with
+    | .error (.py .keyError) => true | _ => false) = true := by decide
+
+/-- A partial accepted DFA: `complement(minify=True)` through `to_complete` (trap id 9). -/
+example : (match exDead.complementMinFullE 9 (fun _ => 0) with
+    | .ok m => m.states.length | .error _ => 99) = 3 := by decide
+
 end Props.C19
 end AV
